@@ -70,6 +70,15 @@ pub fn gen(tier: &str, seed: u64) -> Gen {
         let mut scripts: Vec<String> = vec![PRELUDE.to_string()];
         let nfail = 1 + rng.below(4);
         let mut k = 0;
+        // some histories run with the global error variables turned into arrays, so that
+        // recording the error at top level itself fails
+        let hostile = if i % 5 == 3 { 1 + rng.below(3) } else { 0 };
+        match hostile {
+            1 => scripts.push("unset errorInfo; set errorInfo(x) 1".to_string()),
+            2 => scripts.push("unset errorCode; set errorCode(x) 1".to_string()),
+            3 => scripts.push("unset errorInfo; set errorInfo(x) 1; unset errorCode; set errorCode(x) 1".to_string()),
+            _ => {}
+        }
         for _ in 0..nfail {
             // every fault kind at every context depth is reached systematically first, then randomly
             let f = if i < FAULTS.len() * 4 { FAULTS[i % FAULTS.len()] } else { FAULTS[rng.below(FAULTS.len())] };
@@ -80,11 +89,17 @@ pub fn gen(tier: &str, seed: u64) -> Gen {
             }
             scripts.push(s);
         }
+        match hostile {
+            1 => scripts.push("unset errorInfo; set errorInfo {}".to_string()),
+            2 => scripts.push("unset errorCode; set errorCode {}".to_string()),
+            3 => scripts.push("unset errorInfo; set errorInfo {}; unset errorCode; set errorCode {}".to_string()),
+            _ => {}
+        }
         scripts.extend(probes());
         let refs: Vec<&str> = scripts.iter().map(|s| s.as_str()).collect();
         cases.push(case(LIMIT, &refs, &["g8"]));
     }
-    (cases, vec![("1-4 failing evaluations (22 fault kinds under 0-3 nested contexts of 9 kinds) followed by 4 probes".to_string(), n, false)])
+    (cases, vec![("1-4 failing evaluations (22 fault kinds under 0-3 nested contexts of 9 kinds; one history in five with errorInfo/errorCode turned into arrays meanwhile) followed by 4 probes".to_string(), n, false)])
 }
 
 pub fn run(case: &Term) -> Term {
